@@ -545,7 +545,7 @@ func Handle(f []string) string {
 var kindsFor = map[string][]string{
 	"C01": {"hdr", "lit", "inline", "clearsign", "merge", "canon", "detached"},
 	"C03": {"lit", "inline", "clearsign", "merge"},
-	"C05": {"hdr", "lit", "inline", "parse"},
+	"C05": {"hdr", "lit", "inline", "parse", "merge", "clearsign"},
 	"C08": {"reclear", "merge"},
 	"C11": {"hdr", "scan", "parse"},
 }
@@ -755,6 +755,17 @@ func Gen(w *bufio.Writer, seed uint64, tier string, prop string) {
 	e.op("PGP merge 610a+rep:65535:78+0d0a sha256") // carriage return dropped before the line reaches the scanner
 	e.op("PGP merge 610a+rep:65530:78+rep:20:20+0a sha256")
 	e.op("PGP clearsign rep:70000:78+0a2d0a sha256")
+	// lines around the buffer sizes a line reader could use instead of the scanner (bufio 4096, 8192, 16 KiB, 32 KiB):
+	// a line must come out as ONE line whatever its length, with and without a terminator, CRLF, dash-escaped
+	for _, n := range []int{4095, 4096, 4097, 5000, 8191, 8192, 8193, 9000, 16383, 16384, 16385, 32768, 40000} {
+		e.op("PGP merge 610a+rep:%d:78+0a62 sha256", n)
+		if n%4096 <= 1 || n == 5000 || n == 9000 {
+			e.op("PGP merge rep:%d:79+0d0a+7a0a sha512", n)
+			e.op("PGP merge 2d+rep:%d:78 sha256", n-1)
+			e.op("PGP clearsign 610a+rep:%d:78 sha256", n)
+			e.op("PGP reclear rep:%d:78+0a sha256 2", n)
+		}
+	}
 
 	// ---- re-signing own output
 	for i, t := range []string{"a\n", "", "- x\n-----BEGIN PGP SIGNATURE-----\n", "-a\r\n b \t\r\nFrom x\n\n", "x"} {
